@@ -79,6 +79,15 @@ CHECKS = {
         "note": "Small-scope exhaustive (length bound, fixed alphabet and environment). Inputs with NUL/BOM/invalid UTF-8 excluded (text/scanner alters them); trailing lone '%' accepted either way.",
         "technique": _TLC,
     },
+    "C11": {
+        "level": "model_checking",
+        "text": "TypeLit.tla enumerates every well-formed closed type expression up to the tier depth (12 leaves incl. error, any, named types of three packages - one same-named clash - "
+                "and generic instantiations; 8 constructors incl. tagged and embedded struct fields) x 3 rendering scenarios x {go/types, reflect} views and states the law (rendered text "
+                "type-checks in the target package with exactly the registered imports to an identical type; local unqualified; imports = mentioned foreign packages). Each case is rendered "
+                "with snippet.ID, type-checked by go/types inside the real target package and judged by TypeLitTrace.tla.",
+        "note": "go/types decides denotation (logged); the specification supplies domain and law. Exhaustive to the depth bound.",
+        "technique": _TLC,
+    },
     "C12": {
         "level": "model_checking",
         "text": "Comments.tla defines tag classification (trim, marker, key/value split, ordered multimap) and the geometric attribution of doc and trailing "
